@@ -159,6 +159,10 @@ def model_line(comps, weights, ids):
 
 def parse_model(ans, words_by_id):
     rows, _, r = ans.partition(" |R ")
+    r, _, fpart = r.partition(" |F ")
+    fpart, _, upart = fpart.partition(" |U ")
+    parse_model.last_followers = [int(x) for x in fpart.split(",")] if fpart.strip() else []
+    parse_model.last_vocab = tuple(int(x) for x in upart.split()) if upart.strip() else (0, 0)
     table = {}
     for e in rows.split():
         ids, p, b = e.split(":")
@@ -283,7 +287,33 @@ def gen_list_case(rng, quick):
     if rng.chance(1, 3):
         comps.reverse()
     return {"comps": comps, "weights": [rng.choice([0.7, 0.5, 1.0, 0.25]), rng.choice([0.3, 0.5, -0.25, 1.5])],
-            "mem": list(rng.choice(TINY_BLOCKS))}
+            "mem": list(rng.choice(TINY_BLOCKS + MIN_MEM))}
+
+
+def gen_disjoint_case(rng, quick):
+    """components over (mostly) disjoint vocabularies: the union vocabulary is 2-5 times any component's, and contexts shared by
+    all components (the unigram context, <s>, optionally one common word) are followed by (nearly) every word of the union;
+    run with the smallest memory settings the tool accepts, where its own sizing arithmetic, not the block size, decides"""
+    k = rng.choice([2, 3, 3, 4, 5])
+    per = rng.choice([12, 20, 30] if quick else [12, 20, 30, 60])
+    shared = [b"the"] if rng.chance(1, 2) else []
+    comps = []
+    for m in range(k):
+        ws = [b"v%d_%02d" % (m, i) for i in range(per)]
+        if rng.chance(1, 4):
+            ws += [b"v%d_%02d" % ((m + 1) % k, i) for i in range(per // 4)]          # a little overlap
+        lines = []
+        for i, w in enumerate(ws):                                                   # every word starts a sentence
+            line = [w] + [rng.choice(ws) for _ in range(rng.range(0, 2))]
+            lines.append(b" ".join(line))
+            if shared:
+                lines.append(shared[0] + b" " + w)                                    # and follows the common word
+        rng.shuffle(lines)
+        comps.append({"corpus": b"".join(l + b"\n" for l in lines), "order": rng.choice([2, 3, 3])})
+    if rng.chance(1, 3):
+        comps[0]["order"] = 2
+    weights = [rng.choice([0.5, 0.25, 0.3, 1.0, 0.2, -0.1, 0.7]) for _ in range(k)]
+    return {"comps": comps, "weights": weights, "mem": list(rng.choice(MIN_MEM + TINY_BLOCKS))}
 
 
 # bounded sequence encoding ---------------------------------------------------------------------------
@@ -348,6 +378,8 @@ def fmt_w(w):
 
 MEM_CONFIGS = [("20M", "1M"), ("20M", "64K"), ("5M", "256K"), ("1M", "4K"), ("100K", "1K"), ("64K", "256b"), ("2K", "256b")]     # -S >= 4 * --sort_block
 TINY_BLOCKS = [("100K", "1K"), ("1M", "1K"), ("64K", "256b"), ("2K", "256b"), ("20K", "512b")]
+# -S at the minimum the tool accepts (four sort buffers) and just above it, for blocks of 64 bytes .. 2K
+MIN_MEM = [("%db" % (4 * b + d), "%db" % b) for b in (64, 128, 256, 512, 1024, 2048) for d in (0, 1)] + [("1M", "128b"), ("1M", "2K")]
 
 
 def run_interpolate(ctx, tools, prefixes, weights, tag, mem=("20M", "1M")):
@@ -519,7 +551,8 @@ def run(ctx):
             [("mixed", gen_case(rng, True)) for _ in range(ctx.pick(12, 200))] + \
             [("single", gen_single(rng)) for _ in range(ctx.pick(6, 100))] + \
             [("many", gen_many_models_case(rng)) for _ in range(ctx.pick(3, 40))] + \
-            [("list", gen_list_case(rng, ctx.quick)) for _ in range(ctx.pick(5, 40))]
+            [("list", gen_list_case(rng, ctx.quick)) for _ in range(ctx.pick(5, 40))] + \
+            [("disjoint", gen_disjoint_case(rng, ctx.quick)) for _ in range(ctx.pick(6, 60))]
     kinds = {}
     results = []
     for kind, case in cases:
@@ -542,6 +575,7 @@ def run(ctx):
     # (3) correspondence with the extracted model
     mismatches = []
     model_broken = None
+    window_over_component = 0
     try:
         model = vlib.ocaml_model("C13")
         mout = vlib.run_lines(model, model_in, timeout=1200)
@@ -557,6 +591,21 @@ def run(ctx):
             wbi = {v: k for k, v in res["ids"].items()}
             mtable, ok_buggy, ok_fixed = parse_model(ans, wbi)
             res["model_reunify"] = (ok_buggy, ok_fixed)
+            if res["rc"] == 0:
+                # the longest run of records the normaliser rewinds over (successors of one context), per order: model vs the
+                # tool's output; it never exceeds the union vocabulary, and may exceed every component's vocabulary
+                tool_f = []
+                for sec in res["out"]["sections"]:
+                    cnt = {}
+                    for g in sec:
+                        cnt[g[:-1]] = cnt.get(g[:-1], 0) + 1
+                    tool_f.append(max(cnt.values()) if cnt else 0)
+                union_v, comp_v = parse_model.last_vocab
+                if tool_f != parse_model.last_followers or max(tool_f + [0]) > union_v or union_v != len(res["out"]["sections"][0]):
+                    mismatches.append((case, "tool: successors per context %s, union vocabulary %d" % (tool_f, len(res["out"]["sections"][0])),
+                                       "model: %s, union vocabulary %d" % (parse_model.last_followers, union_v)))
+                if max(tool_f + [0]) > comp_v:
+                    window_over_component += 1
             if res["rc"] == 0:
                 msg = model_check(mtable, res["out"], max(res["orders"]))
                 if msg:
@@ -574,7 +623,8 @@ def run(ctx):
                             "output is then checked over the whole union vocabulary).  Vocabulary-merge cases: 1-6 vocabularies incl. empty, "
                             "full and overlapping; non-trivial when at least two vocabularies and a non-empty union.")
     ctx.coverage["case_kinds"] = kinds
-    ctx.coverage["memory_settings"] = ["-S %s --sort_block %s" % m for m in MEM_CONFIGS]
+    ctx.coverage["cases_where_a_context_has_more_successors_than_any_component_vocabulary"] = window_over_component
+    ctx.coverage["memory_settings"] = ["-S %s --sort_block %s" % m for m in MEM_CONFIGS + TINY_BLOCKS + MIN_MEM]
     ctx.coverage["second_setting_runs"] = sum(1 for r in results if "mem2_identical" in r)
     ctx.coverage["second_setting_byte_identical"] = sum(1 for r in results if r.get("mem2_identical"))
     ctx.coverage["traces_validated_against_impl"] = len(model_in) - len(mismatches)
